@@ -41,4 +41,17 @@ def obligations(tier):
                           'every pair at or after the start id lies in the level-1 chunk found or a later one' % (n, df),
                      bound='%d entries, decimate factor %d' % (n, df),
                      assumes=['the index tree has the structure the builder produces (O1_utc_index_construction)']))
+    # thorough only: symex of this obligation takes ~7 min whatever N is (128k steps through untyped read buffers); C12 quick is already at its time limit
+    for n, df in ([] if tier == 'quick' else [(4, 2), (7, 2)]):
+        o.append(Obl('O1_utc_iterate_D%d_N%d' % (df, n), 'c11_seek.c', units=['core.c', 'reader.c', 'buffer.c'], seams={'core.c': ['jls_core_rd_chunk']},
+                     defines=['JLS_VERIF_SIGNAL_COUNT=2', 'JLS_VERIF_SOURCE_COUNT=2', 'JLS_VERIF_FSR_BUFFER_U64=2', 'JLS_VERIF_BUF_DEFAULT_SIZE=128', 'JLS_VERIF_BUF_STRING_SIZE=16',
+                              'N_FIXED=%d' % n, 'DF=%d' % df, 'MODE_UTC_ITERATE=1', 'STRICT_INCREASING=1'],
+                     unwind=18, unwind_text=[('harness', r'i < N_FIXED', n + 2), ('jls_core_rd_chunk', r'c < MAXC', 12), ('jls_raw_rd_header', r'c < MAXC', 12), ('jls_raw_chunk_next', r'c < MAXC', 12),
+                                             ('jls_core_utc', r'while \(hdr.item_next\)', n + 2), ('jls_core_utc', r'idx < utc->header.entry_count\) &&', df + 2),
+                                             ('jls_core_utc', r'entry_idx < utc->header.entry_count', df + 2), ('utc_cbk', r'j < DF', df + 2), ('jls_core_ts_seek', r'for \(; ; \+\+idx\)', df + 2)],
+                     typed_calloc=True, timeout=900 if tier == 'quick' else 2400, backend=PORTFOLIO, objbits=10,
+                     desc='jls_core_utc (reader.c) = level-1 seek + batch iteration over %d UTC entries (decimate %d): symbolic increasing sample ids, first sample id, requested id and stop count: '
+                          'exactly the entries at or after the requested id, in write order, each once, ids relative to the first sample id, stop honoured' % (n, df),
+                     bound='%d entries, decimate factor %d, all entries committed to level-1 summaries (closed file)' % (n, df),
+                     assumes=['index tree and level-1 summaries as the writer builds them (O1_utc_index_construction), served at the jls_core_rd_chunk / jls_raw_rd_header / jls_raw_chunk_next seams']))
     return o
